@@ -251,14 +251,9 @@ fn gen_go(s: &mut Src, cheap_depth: bool) -> String {
 
 fn part_b(bytes: &[u8], stats: &mut Stats) -> Verdict {
     let mut s = Src::new(bytes);
-    let mut p = match Proc::spawn() {
-        Ok(p) => p,
-        Err(e) => return Err(Failure::new("harness-no-engine", json!({"error": e}))),
-    };
-    let mut sent: Vec<String> = Vec::new();
+    let mut lines: Vec<String> = Vec::new();
     if s.chance(50) {
-        p.send("ucinewgame");
-        sent.push("ucinewgame".into());
+        lines.push("ucinewgame".into());
     }
     let rounds = 1 + s.below(5);
     let mut cur = Pos::startpos();
@@ -266,19 +261,45 @@ fn part_b(bytes: &[u8], stats: &mut Stats) -> Verdict {
         if r == 0 || s.chance(80) {
             let line = script::gen_cheap_position(&mut s, 3, 150_000, 30);
             if let script::Line::Position { text, result, .. } = line {
-                p.send(&text);
-                sent.push(text);
+                lines.push(text);
                 cur = result;
             }
         }
         let cheap = script::cheap_search(&cur, 3, 150_000);
-        let go = gen_go(&mut s, cheap);
-        p.send(&go);
+        lines.push(gen_go(&mut s, cheap));
+        lines.push("isready".into());
+    }
+    judge_script(&lines, stats)
+}
+
+/// Layer B oracle for one script (every go is followed by an isready barrier): the real binary,
+/// exactly one bestmove line per go, legal in the position last set (read from the same command
+/// lines by the reference), 0000 iff that position has no legal move.
+fn judge_script(lines: &[String], stats: &mut Stats) -> Verdict {
+    let mut p = match Proc::spawn() {
+        Ok(p) => p,
+        Err(e) => return Err(Failure::new("harness-no-engine", json!({"error": e}))),
+    };
+    let mut sent: Vec<String> = Vec::new();
+    let mut searches = 0;
+    let mut i = 0;
+    while i < lines.len() {
+        let l = &lines[i];
+        p.send(l);
+        sent.push(l.clone());
+        i += 1;
+        if l.split_whitespace().next() != Some("go") {
+            continue;
+        }
+        let go = l.clone();
+        if lines.get(i).map(|x| x.trim()) == Some("isready") {
+            sent.push("isready".into());
+            i += 1;
+        }
         p.send("isready");
-        sent.push(go.clone());
-        sent.push("isready".into());
+        let cur = script::ref_current(&sent).map_err(|e| Failure::new("harness-bad-script", json!({"error": e})))?;
         stats.eval();
-        let lines = match p.read_until("readyok", Duration::from_secs(25)) {
+        let out = match p.read_until("readyok", Duration::from_secs(25)) {
             Ok(l) => l,
             Err(Wait::Timeout) => {
                 return Err(Failure::new("harness-timeout-waiting-for-bestmove", json!({"script": sent, "stdout": p.transcript})));
@@ -288,9 +309,9 @@ fn part_b(bytes: &[u8], stats: &mut Stats) -> Verdict {
                 return Err(Failure::new("process-died", json!({"script": sent, "stdout": p.transcript, "exit_code": code})));
             }
         };
-        let best: Vec<&String> = lines.iter().filter(|l| l.starts_with("bestmove")).collect();
+        let best: Vec<&String> = out.iter().filter(|l| l.starts_with("bestmove")).collect();
         let legal: Vec<String> = cur.legal_moves().iter().map(|m| m.uci()).collect();
-        let d = json!({"script": sent, "position": cur.fen4(), "answer_lines": lines, "legal_moves": legal.len()});
+        let d = json!({"script": sent, "position": cur.fen4(), "answer_lines": out, "legal_moves": legal.len()});
         if best.len() != 1 {
             return Err(Failure::new(if best.is_empty() { "no-bestmove-line" } else { "several-bestmove-lines" }, d));
         }
@@ -300,19 +321,20 @@ fn part_b(bytes: &[u8], stats: &mut Stats) -> Verdict {
                 return Err(Failure::new("move-in-terminal-position", d));
             }
         } else if mv == "0000" {
-            let completed = lines.iter().any(|l| l.starts_with("info depth"));
+            let completed = out.iter().any(|l| l.starts_with("info depth"));
             return Err(Failure::new(if completed { "bestmove-0000-with-legal-moves" } else { "bestmove-0000-with-legal-moves-no-iteration-completed" }, d));
         } else if !legal.iter().any(|m| m == mv) {
             return Err(Failure::new("illegal-bestmove", d));
         }
-        let no_info = !lines.iter().any(|l| l.starts_with("info depth"));
+        let no_info = !out.iter().any(|l| l.starts_with("info depth"));
         if no_info {
             stats.class("B_no_iteration_completed");
         }
         stats.class(&format!("B_go_{}", go.split_whitespace().nth(1).unwrap_or("?")));
-        if legal.len() >= 2 && (r >= 1 || no_info) {
+        if legal.len() >= 2 && (searches >= 1 || no_info) {
             stats.nontrivial(&sent);
         }
+        searches += 1;
     }
     p.send("quit");
     stats.sample(|| json!({"layer": "B", "script": sent}));
@@ -396,6 +418,9 @@ pub fn replay(part: &str, bytes: &[u8], case: &Value, stats: &mut Stats) -> Verd
         if let Some(h) = case.get("history").and_then(|x| x.as_array()) {
             return replay_history(h, stats);
         }
+    } else if let Some(a) = case.get("script").and_then(|x| x.as_array()) {
+        let lines: Vec<String> = a.iter().filter_map(|x| x.as_str().map(|s| s.to_string())).collect();
+        return judge_script(&lines, stats);
     }
     match part {
         "B" => part_b(bytes, stats),
